@@ -15,7 +15,7 @@ LEAN_CONE = ['PncModel.Arr', 'PncModel.NsStep', 'PncModel.Generated.NamespaceOrd
 LEMMA_FILES = ['PncProofs/StackLemmas.lean', 'PncProofs/SliceLemmas.lean', 'PncProofs/ZipLemmas.lean']
 REQUIRED_THEOREMS = ['build_hasShape', 'mapCells_hasShape', 'zipCells_hasShape', 'mask_wf', 'insertDim_wf',
                      'rebuilt_shape', 'subset_wf', 'renameVar_wf', 'binop_wf', 'reorder_wf', 'removeSingleton_wf', 'renameDims_wf', 'renameDim_wf', 'apply_wf', 'applyAxes_spec',
-                     'stack_wf', 'slice_wf', "slice_wf'", 'insertDim_wf_all', 'stackSelf_wf', 'evalInto_inv', 'step_inv', 'seq_inv', 'seq_wf']
+                     'stack_wf', 'slice_wf', "slice_wf'", 'insertDim_wf_all', 'stackSelf_wf', 'evalInto_inv', 'step_inv', 'seq_inv', 'seq_wf', 'step_unlim', 'seq_unlim']
 RULE = ('random files (as C02) x random sequences of 1-6 operations (copy, sliceDimensions, applyAlongDimensions, '
         'subsetVariables, renameVariable, renameDimension, renameDimensions (several at once: chains, swaps, equal targets), insertDimension, removeSingleton, reorderDimensions, '
         'stack with itself, file arithmetic with itself and with a dimension-permuted copy, mask) with in-domain arguments plus ~10% out-of-domain '
